@@ -57,6 +57,8 @@ def cases(draw, cls, max_n=120):
         case["retune_from"] = draw(st.integers(2, 20))  # first built and calculated with this period, then re-tuned
     if "input_value" in cfg["kw"] and draw(st.integers(0, 3)) == 0:
         case["sibling_input"] = draw(st.sampled_from(("high", "low", "open")))
+    elif "values" not in case and draw(st.integers(0, 3)) == 0:
+        case["enc"] = draw(st.sampled_from(("dict", "list_first", "list_last", "dict_caps")))
     if draw(st.integers(0, 3)) == 0:
         from hxv.lib import interlude
 
@@ -153,7 +155,7 @@ def run_case(case) -> Result:
         except Exception as exc:
             ind, v = None, raises(exc)
     else:
-        ind, v = nm.run_batch(cfg, rows, prep, inter=case.get("interlude"), sibling_input=case.get("sibling_input"))
+        ind, v = nm.run_batch(cfg, rows, prep, inter=case.get("interlude"), sibling_input=case.get("sibling_input"), enc=None if case.get("interlude") else case.get("enc"))
         if case.get("interlude"):
             labels.append("maintenance_interlude")
     if v is not None:
